@@ -181,6 +181,21 @@ def deep_strs(S, v, depth=0):
     out = re.findall(r"s:'([^']*)'", v)
     if depth > 8:
         return out
+
+    def const_lits(lit, d=0):
+        # the string literals of a named constant (an array of names of other constants, ...)
+        if isinstance(lit, str):
+            return [lit]
+        if isinstance(lit, list) and d < 6:
+            return [x for e in lit for x in const_lits(e, d + 1)]
+        if isinstance(lit, dict) and "path" in lit and d < 6:
+            k = S.prog.consts.get(S.fn.crate + "::" + lit["path"]) or S.prog.consts.get("msi::" + lit["path"])
+            return const_lits(k.get("lit"), d + 1) if k else []
+        return []
+    for m in re.findall(r"k:([A-Za-z0-9_:]+)", v):
+        k = S.prog.consts.get(S.fn.crate + "::" + m) or S.prog.consts.get("msi::" + m)
+        if k is not None:
+            out += const_lits(k.get("lit"))
     for m in re.findall(r"call@(\d+):", v):
         t = S.fn.blocks[int(m)]["term"]
         if t["t"] == "call":
